@@ -124,6 +124,11 @@ def run(tier='quick'):
                         'returns normally and the getter still reports nothing', floor=4)
     from . import extra
     extra.updates_have_rows(prog, cg, eff, chk, G7)
+    G8 = chk.rule('G8', 'a getter answers from the database, not from the handle: handle, implementation and table classes '
+                        'hold only ids, shared pointers and table handles - no copy of a stored value that a second handle of '
+                        'the same track (or an earlier setter of this one) would leave stale (rule N1 of C10)', floor=10)
+    from . import c10 as _c10
+    _c10.handles_stateless(prog, chk, G8)
     return chk.finish('value-flow interpretation of the 60 track_impl virtuals of both implementations per '
                       'schema range (%d representative versions): per-field read / write location sets with '
                       'blob-member granularity, converter argument roles, written constants; row-scope and '
